@@ -38,6 +38,15 @@ type foreignDomainIngest struct{ model.IngestRequest }
 
 func (f *foreignDomainIngest) Domain() string { return "some-other-domain" }
 
+// record types with the right domain but another payload type
+type foreignTypeIngest struct{ model.IngestRequest }
+
+func (f *foreignTypeIngest) Codec() []byte { return []byte("not-an-ingest-request") }
+
+type foreignTypeRegister struct{ *peer.PeerRecord }
+
+func (f *foreignTypeRegister) Codec() []byte { return []byte("not-a-peer-record") }
+
 func runC18(c *vf.Ctx) {
 	c18Matrix(c)
 	c18Alter(c)
@@ -227,6 +236,28 @@ func c18Alter(c *vf.Ctx) {
 			b, _ := env.Marshal()
 			if _, err := model.ReadIngestRequest(b); err == nil {
 				c.Fail(sub, i, "foreign-domain-accepted", "", wx())
+			}
+			// right domain, right signer, payload that parses as the request, but another payload type
+			ft := &foreignTypeIngest{model.IngestRequest{Multihash: q.mh, ProviderID: id.ID, ContextID: q.ctx, Metadata: q.md, Addrs: q.addrs, Seq: 1}}
+			if envt, err := record.Seal(ft, id.Priv); err == nil {
+				bt, _ := envt.Marshal()
+				if _, err := model.ReadIngestRequest(bt); err == nil {
+					c.Fail(sub, i, "foreign-payload-type-accepted:ingest", "", wx())
+				}
+			} else {
+				c.Fail(sub, i, "harness-seal", err.Error(), nil)
+			}
+			prt := peer.NewPeerRecord()
+			prt.PeerID = id.ID
+			a0, _ := multiaddr.NewMultiaddr(q.addrs[0])
+			prt.Addrs = []multiaddr.Multiaddr{a0}
+			if envt, err := record.Seal(&foreignTypeRegister{prt}, id.Priv); err == nil {
+				bt, _ := envt.Marshal()
+				if _, err := model.ReadRegisterRequest(bt); err == nil {
+					c.Fail(sub, i, "foreign-payload-type-accepted:register", "", wx())
+				}
+			} else {
+				c.Fail(sub, i, "harness-seal", err.Error(), nil)
 			}
 			// a peer record sealed by the provider but naming another peer in the record
 			other := AnyIdent(r)
